@@ -163,12 +163,28 @@ class Chain:
             far = {'eq': z3.Or(l - r_ > half, r_ - l > half), 'le': l - r_ > half, 'lt': l - r_ > half, 'ge': r_ - l > half, 'gt': r_ - l > half}[rgoal.kind]
             if rgoal.guard is not None: far = z3.And(rgoal.guard, far)
             box = [z3.And(v >= -4, v <= 4) for v in s.vars if z3.is_real(v)]
+            box += [z3.Not(c_) for k_, c_, d_ in s.res.obligations if k_ == 'domain']        # a well-defined execution: x/0 is uninterpreted in the model and NaN natively
             try: r2, m2, dt2, used2 = s.S.query(s.base + box + [far], s.S.cap(20, 60), s.direct_solver, s.vars)
             except z3.Z3Exception: r2 = 'unknown'
             if r2 == 'sat': hy = s.base + box + [far]
         s.S._prove_known(oname, goal, hy, s.res, (), timeout=s.tm if r != 'unknown' or hy is not s.base else 1, solver=s.direct_solver, kind=kind, functions=s.fnlist, bounds=s.binfo, spec_fn=spec_fn, pre_fn=s.prefn,
-                         unit=U, fname=s.fname, mode='real', vars_=s.vars, mandatory=s.mandatory)
+                         unit=U, fname=s.fname, mode='real', vars_=s.vars, mandatory=s.mandatory, replayer=None if spec_fn else s._side_replay(oname))
         return False
+    def _side_replay(s, oname):
+        """a violated domain obligation (division by zero, sqrt of a negative under the stated precondition) is reproduced when the native function, run on the nearest
+        floats of the model, returns a NaN or an infinity"""
+        def replay(m):
+            vals = s.S._model_inputs(m, s.res); bits = []
+            for (c, n), row in zip(s.fn.ins, vals): bits.append([float_to_bits(float(v), ct_bits(c)) if ct_kind(c) == 'f' else int(v) for v in row])
+            nat = U.call_native(s.fname, bits)
+            info = {'unit': U.name, 'fn': s.fname, 'obligation': oname, 'property': s.S.pid, 'inputs': [[str(v) for v in r_] for r_ in vals], 'native_out': [[hex(v) for v in r_] for r_ in nat]}
+            bad = False
+            for (c, n), r_ in zip(s.fn.outs, nat):
+                if ct_kind(c) == 'f':
+                    for v in r_:
+                        d_ = bits_to_float(v, ct_bits(c)); bad = bad or d_ != d_ or d_ in (float('inf'), float('-inf'))
+            return ('reproduced' if bad else 'not-reproduced'), info
+        return replay
     def goals(s, spec, recipes=None, timeout=None, solver='nra'):
         """spec(i, o) -> [(label, RGoal)] as for check_fn; recipes[label] = dict(use=[...], hyps=[...], gen=[...]) (labels without a recipe: direct query)"""
         for label, g in spec(s.i, s.o):
@@ -191,6 +207,13 @@ def rcheck(S, fname, spec, pre=None, *, name=None, bounds='', timeout=None, muta
     if side: C.side()
     C.goals(spec); C.twins(mutant)
     return C
+def at_e0(*rows, **sc):
+    """witness point: the listed input vectors are the first unit vector e0, listed scalars (row=value) take the given value"""
+    return lambda i: [x == (1 if k == 0 else 0) for r_ in rows for k, x in enumerate(i[r_])] + [i[int(r_[1:])][0] == v for r_, v in sc.items()]
+def opaque(A, T):
+    """[A] when the code's term A may be generalised independently of the transcription T it has been linked to (A == T is a proved fact); [] when both are the SAME
+    term (hash-consed), where replacing A would also replace T and lose what is known about its structure"""
+    return [] if A.eq(T) else [A]
 def normalize_shape(C, k, V, out, tag, pos_use=(), pos_hyps=(), gen=()):
     """the code's k-th square root is sqrt(V.V) and `out` (real terms) is V / sqrt(V.V): establishes facts  tag.arg: argument == V.V,  tag.spos: root > 0
     (given fact(s) pos_use / hypotheses pos_hyps that imply V.V > 0 literally),  tag.out<j>: out[j] * root == V[j],  tag.unit: out.out == 1.
@@ -199,7 +222,7 @@ def normalize_shape(C, k, V, out, tag, pos_use=(), pos_hyps=(), gen=()):
     C.lemma(tag + '.arg', A == VV, gen=gen)
     C.lemma(tag + '.spos', y > 0, use=[tag + '.arg'] + list(pos_use), hyps=ax + list(pos_hyps), gen=[A, VV])
     for j in range(len(V)): C.lemma(outs[j], out[j] * y == V[j], use=[tag + '.spos'], gen=gen)
-    C.lemma(tag + '.unit', rdot(out, out) == 1, use=outs + [tag + '.spos', tag + '.arg'], hyps=ax, gen=[A] + list(out) + list(V))
+    C.lemma(tag + '.unit', rdot(out, out) == 1, use=outs + [tag + '.spos', tag + '.arg'], hyps=ax, gen=opaque(A, VV) + list(out) + list(V))
     return y
 def along(C, tag, out, V, y, T, label, gen_extra=()):
     """fact label: (out . T) * root == V . T   from tag.out<j> (bilinear step, every vector generalised)"""
@@ -250,7 +273,7 @@ def job_core_real(t, L):
             g = [('tangential%d' % k, REq(r[k] - rn * N[k], eta * (I[k] - d * N[k]))) for k in range(L)]
             g += [('unit', REq(rdot(r, r), 1)), ('into-surface', RGoal('le', rn, 0)), ('normal-part', REq(rn * rn, kk(i)))]
             return g
-        C = Chain(S, 'refract' + s, name='c12.refract%s.transmit' % s, pre=pre_t, timeout=tm, bounds='unit I, unit N, eta > 0, k >= 0', direct_solver='qfnra')
+        C = Chain(S, 'refract' + s, name='c12.refract%s.transmit' % s, pre=pre_t, timeout=tm, bounds='unit I, unit N, eta > 0, k >= 0', direct_solver='qfnra', witness_at=at_e0(0, 1, r2=1))
         if C.res is not None and len(C.sq) == 1:
             # r = eta I - c N with c = eta d + sqrt(k), d = N.I:  |r|^2 = eta^2 |I|^2 - 2 eta c d + c^2 |N|^2 = eta^2 (1 - d^2) + k = 1  and  r.N = eta d - c |N|^2 = -sqrt(k)  for unit I, N
             I, N, eta = C.i[0], C.i[1], C.i[2][0]; r = R(C.o[0]); A, sv, ax = C.sqrt_ax(0); d = rdot(N, I); c_ = eta * d + sv; f = [eta * I[k] - c_ * N[k] for k in range(L)]
@@ -262,7 +285,7 @@ def job_core_real(t, L):
             C.lemma('rN', rN == fN, use=outs, gen=r + f)
             C.lemma('fN', fN == eta * d - c_ * NN, gen=[c_])
             C.side(lambda kind, dsc, cond, k: dict(use=['k'], hyps=C.pre[3:], gen=[A, K]))
-            C.goals(snell, {'unit': dict(use=['k', 'rr', 'expand'], hyps=ax + C.pre[:2], gen=[rr, ff, A, II, NN, d]),
+            C.goals(snell, {'unit': dict(use=['k', 'rr', 'expand'], hyps=ax + C.pre[:2], gen=[rr, ff] + opaque(A, K) + [II, NN, d]),
                             'normal-part': dict(use=['k', 'rN', 'fN'], hyps=ax + C.pre[1:2], gen=[rN, fN, K, A, NN, d]),
                             'into-surface': dict(use=['rN', 'fN'], hyps=ax + C.pre[1:2], gen=[rN, fN, A, NN, d])})
             C.twins(lambda i, o: [('m', RGoal('ge', rdot(R(o[0]), i[1]), 0))])
@@ -338,7 +361,7 @@ def job_angle(t, L):
     def run(S):
         tm = S.cap(90, 300)
         unit2 = lambda i: [rdot(i[0], i[0]) == 1, rdot(i[1], i[1]) == 1]
-        C = Chain(S, 'angle' + s, pre=unit2, timeout=tm, extra_hyps=acos_link(lambda i: rdot(i[0], i[1])), bounds='unit x, y; acos only as a function (congruence)')
+        C = Chain(S, 'angle' + s, pre=unit2, timeout=tm, extra_hyps=acos_link(lambda i: rdot(i[0], i[1])), bounds='unit x, y; acos only as a function (congruence)', witness_at=at_e0(0, 1))
         if C.res is not None:
             cs_lemma(C, C.i[0], C.i[1]); C.side()
             C.goals(lambda i, o: [('acos-of-dot', REq(o[0][0].r, acos_of(rdot(i[0], i[1]))))], {'acos-of-dot': dict(use=['cauchy-schwarz'], hyps='base')})
@@ -356,7 +379,7 @@ def job_gtx3(t):
             x, y = i[0], i[1]; A = acos_of(rdot(x, y)); cr = x[0] * y[1] - x[1] * y[0]
             return [('signed-acos', REq(o[0][0].r, z3.If(cr > 0, A, -A)))]
         for fn_, sp_, bd_ in (('oangle2_', oa2, 'unit x, y in the plane; counter-clockwise positive'), ('oangle3_', oa3, 'unit x, y; any ref; sign of dot(ref, cross(x,y))')):
-            C = Chain(S, fn_ + t, pre=unit2, timeout=tm, extra_hyps=acos_link(lambda i: rdot(i[0], i[1])), bounds=bd_)
+            C = Chain(S, fn_ + t, pre=unit2, timeout=tm, extra_hyps=acos_link(lambda i: rdot(i[0], i[1])), bounds=bd_, witness_at=at_e0(0, 1))
             if C.res is not None:
                 cs_lemma(C, C.i[0], C.i[1]); C.side()
                 C.goals(sp_, {'signed-acos': dict(use=['cauchy-schwarz'], hyps='base')})
@@ -482,8 +505,8 @@ def job_ortho_m3(t):
             return dict(use=['n%d.arg' % j, pos[j]], gen=[A[j], VV[j]]) if key == 'sqrt' else dict(use=['n%d.spos' % j])
         C.side(side_recipe)
         rc = {'unit%d' % k: dict(use=['n%d.unit' % k]) for k in range(3)}
-        rc['orthogonal01'] = dict(use=['orth01'])
-        rc['orthogonal02'] = dict(use=['orth02']); rc['orthogonal12'] = dict(use=['orth12'])
+        rc['orthogonal01'] = dict(use=['orth01'], gen=r0 + r1)
+        rc['orthogonal02'] = dict(use=['orth02'], gen=r0 + r2); rc['orthogonal12'] = dict(use=['orth12'], gen=r1 + r2)
         for p_, q_ in pairs(3): rc['col0-parallel%d%d' % (p_, q_)] = dict(use=['n0.out%d' % p_, 'n0.out%d' % q_, 'n0.spos'], gen=r0)
         rc['col0-direction'] = dict(use=['r0.m0', 'm0pos', 'n0.spos'], gen=[rdot(r0, m0), m0m0])
         rc['col1-in-span'] = dict(use=['span-r0', 'span-u1', 'span-r1*s1', 'n1.spos'], gen=[d_r1, d_u1, d_r0, e])
@@ -616,10 +639,12 @@ def fp_check(S, fname, spec, pre=None, *, name, timeout, solver='z3', bounds='',
     to sparse input SLICES (most components +0) in which a counterexample is small enough to be found - a model is a genuine counterexample of the unrestricted
     obligation and is replayed natively like any other.  A restriction is never used to prove anything."""
     SQRT_CONSTS.clear()
-    res = S.check_fn(U, fname, None, pre, timeout=timeout, solver=solver, name=name, bounds=bounds, witness=witness, side=side, validate=validate, mutant=mutant)
+    res = S.check_fn(U, fname, None, pre, timeout=timeout, solver=solver, name=name, bounds=bounds, witness=False, side=side, validate=validate, mutant=mutant)
     if res is None: return None
     fn = U.fns[fname]; p = pre(res.ins) if pre else []
     hyps = input_wellformed(fn, res.ins) + list(p if isinstance(p, (list, tuple)) else [p]) + res.axioms
+    if witness:     # the hypotheses are satisfiable: witnessed at the all-zero input (searching one costs the solver 20 s of multiplier bit-blasting)
+        S.prove(name + '.witness', z3.BoolVal(False), hyps + [x == 0 for r_ in res.ins for x in r_], timeout=S.cap(20, 60), kind='witness', functions=['w_' + fname], bounds=bounds, expect='sat', mandatory=False)
     goals = spec(res.ins, res.outs); facts = [sqrt_fact(t_, c_) for t_, c_ in SQRT_CONSTS.values()]; vars_ = [x for r_ in res.ins for x in r_]
     fnlist = ['w_%s -> %s' % (fname, fn.body.strip().replace('\n', ' ')[:160])]; binfo = bounds + '; ll=' + U.ll_sha(); found = False
     for label, g in goals:
@@ -677,10 +702,8 @@ def job_fp(t, L):
     c, w = FT[t]; s = '_v%d_%s' % (L, t)
     def run(S):
         tm = S.cap(90, 300); sv = 'cvc5' if w == 64 else 'z3'      # z3 does not find models of double-precision product chains; cvc5 does
-        res = fp_check(S, 'refract' + s, refract_fp_spec(L, w, False), knan(w), timeout=tm, solver=sv, witness=(w == 32), name='c12.refract%s.fp' % s, bounds='all bit patterns of I, N, eta for which the documented k is not NaN', slices=refract_slices(L, w),
+        res = fp_check(S, 'refract' + s, refract_fp_spec(L, w, False), knan(w), timeout=tm, solver=sv, name='c12.refract%s.fp' % s, bounds='all bit patterns of I, N, eta for which the documented k is not NaN', slices=refract_slices(L, w),
                          mutant=lambda i, o: [('m', z3.Implies(z3.fpLEQ(fk(i, w)[0], FPV(0.0, w)), fpv_of(o[0][0]) == FPV(0.0, w)))])
-        if w == 64 and res is not None:
-            S.prove('c12.refract%s.fp.witness' % s, z3.BoolVal(False), knan(w)(res.ins), timeout=S.cap(30, 60), solver='cvc5', kind='witness', expect='sat', mandatory=False, vars_=[x for r_ in res.ins for x in r_])
         fp_check(S, 'faceforward' + s, faceforward_fp_spec(L, w), timeout=tm, solver=sv, name='c12.faceforward%s.fp' % s, bounds='all bit patterns (NaN, inf, +-0 included)', slices=[('vec1', zero_tail((0, 1, 2)))],
                    mutant=lambda i, o: [('m', z3.If(z3.fpLEQ(fdot([fpof(x) for x in i[2]], [fpof(x) for x in i[1]]), FPV(0.0, w)), fpv_of(o[0][0]) == fpof(i[0][0]), val_eq(fpv_of(o[0][0]), z3.fpNeg(fpof(i[0][0])))))])
         if L <= 2:   # vec1/vec2 unary minus is a pure sign-bit flip (vec3/vec4 compute 0 - v: value-equal, sign of a zero component differs -> C01)
@@ -692,7 +715,7 @@ def job_fp_scalar(t):
     def run(S):
         tm = S.cap(90, 300)
         sv = 'cvc5' if w == 64 else 'z3'
-        fp_check(S, 's_refract_' + t, refract_fp_spec(1, w, False), knan(w), timeout=tm, solver=sv, witness=(w == 32), slices=refract_slices(1, w), name='c12.s_refract_%s.fp' % t, bounds='all bit patterns for which the documented k is not NaN')
+        fp_check(S, 's_refract_' + t, refract_fp_spec(1, w, False), knan(w), timeout=tm, solver=sv, slices=refract_slices(1, w), name='c12.s_refract_%s.fp' % t, bounds='all bit patterns for which the documented k is not NaN')
         fp_check(S, 's_faceforward_' + t, faceforward_fp_spec(1, w), timeout=tm, solver=sv, name='c12.s_faceforward_%s.fp' % t, bounds='all bit patterns')
         fp_check(S, 's_faceforward_' + t, signflip_spec(1, w), timeout=tm, solver=sv, name='c12.s_faceforward_%s.fp-signflip' % t, side=False, witness=False, validate=0, bounds='all bit patterns (NaN payloads not compared)')
         # scalar and vec1 overloads take the same decision on the same values
